@@ -3,7 +3,14 @@
 //   crc64 <align> <init> <hex>          -> "<generic> <arch> <public>"
 //   crc32s <init> <hex> <hex> ...       -> public API over consecutive pieces
 //   crc64s <init> <hex> <hex> ...
+//   sha256 <hex>                        -> "<digest via lzma_check_*(LZMA_CHECK_SHA256)> <digest via lzma_sha256_*>"
+//   sha256s <hex> <hex> ...             -> same, the message given in consecutive pieces
+//   check <id> <hex> <hex> ...          -> "<lzma_check_size(id)> <lzma_check_is_supported(id)> <first size bytes of
+//                                           check.buffer after init/update*/finish>", state pre-filled with 0xAA
+//   small32 <init> <hex> / small64 ...  -> HAVE_SMALL implementation (crc32_small.c / crc64_small.c)
+//   smalltab32 / smalltab64             -> the 256 table entries those files generate at run time
 #include "hproto.h"
+#include "check.h"
 
 uint32_t h_crc32_generic(const uint8_t *, size_t, uint32_t);
 uint32_t h_crc32_arch(const uint8_t *, size_t, uint32_t);
@@ -11,6 +18,51 @@ uint32_t h_crc32_public(const uint8_t *, size_t, uint32_t);
 uint64_t h_crc64_generic(const uint8_t *, size_t, uint64_t);
 uint64_t h_crc64_arch(const uint8_t *, size_t, uint64_t);
 uint64_t h_crc64_public(const uint8_t *, size_t, uint64_t);
+uint32_t h_small32(const uint8_t *, size_t, uint32_t);
+uint64_t h_small64(const uint8_t *, size_t, uint64_t);
+uint32_t h_small32_tab(unsigned);
+uint64_t h_small64_tab(unsigned);
+
+static void do_sha(hp_line *l)
+{
+	lzma_check_state a, b;
+	memset(&a, 0xAA, sizeof(a));
+	memset(&b, 0x55, sizeof(b));
+	lzma_check_init(&a, LZMA_CHECK_SHA256);
+	lzma_sha256_init(&b);
+	for (int i = 1; i < l->ntok; ++i) {
+		size_t n; uint8_t *p = hp_hex(l->tok[i], &n);
+		lzma_check_update(&a, LZMA_CHECK_SHA256, p, n);
+		lzma_sha256_update(p, n, &b);
+		free(p);
+	}
+	lzma_check_finish(&a, LZMA_CHECK_SHA256);
+	lzma_sha256_finish(&b);
+	hp_put_hex(a.buffer.u8, 32);
+	putchar(' ');
+	hp_put_hex(b.buffer.u8, 32);
+	putchar('\n');
+}
+
+static void do_check(hp_line *l)
+{
+	// the id is passed through as an integer: ids above LZMA_CHECK_ID_MAX must be harmless
+	unsigned long long idv = hp_u64(l->tok[1]);
+	lzma_check id = (lzma_check)(unsigned int)idv;
+	lzma_check_state s;
+	memset(&s, 0xAA, sizeof(s));
+	lzma_check_init(&s, id);
+	for (int i = 2; i < l->ntok; ++i) {
+		size_t n; uint8_t *p = hp_hex(l->tok[i], &n);
+		lzma_check_update(&s, id, p, n);
+		free(p);
+	}
+	lzma_check_finish(&s, id);
+	uint32_t size = lzma_check_size(id);
+	printf("%" PRIu32 " %d ", size, (int)lzma_check_is_supported(id));
+	hp_put_hex(s.buffer.u8, size <= 64 ? size : 0);
+	putchar('\n');
+}
 
 int main(void)
 {
@@ -36,6 +88,28 @@ int main(void)
 				free(p);
 			}
 			printf("%" PRIu64 "\n", c);
+		} else if (!strcmp(op, "sha256") && l.ntok == 2) {
+			do_sha(&l);
+		} else if (!strcmp(op, "sha256s") && l.ntok >= 1) {
+			do_sha(&l);
+		} else if (!strcmp(op, "check") && l.ntok >= 2) {
+			do_check(&l);
+		} else if ((!strcmp(op, "small32") || !strcmp(op, "small64")) && l.ntok == 3) {
+			size_t n; uint8_t *p = hp_hex(l.tok[2], &n);
+			uint64_t init = hp_u64(l.tok[1]);
+			if (op[5] == '3')
+				printf("%" PRIu32 "\n", h_small32(p, n, (uint32_t)init));
+			else
+				printf("%" PRIu64 "\n", h_small64(p, n, init));
+			free(p);
+		} else if (!strcmp(op, "smalltab32") && l.ntok == 1) {
+			for (unsigned i = 0; i < 256; ++i)
+				printf("%s%" PRIu32, i ? "," : "", h_small32_tab(i));
+			putchar('\n');
+		} else if (!strcmp(op, "smalltab64") && l.ntok == 1) {
+			for (unsigned i = 0; i < 256; ++i)
+				printf("%s%" PRIu64, i ? "," : "", h_small64_tab(i));
+			putchar('\n');
 		} else {
 			printf("bad-op\n");
 		}
